@@ -15,12 +15,12 @@ func init() {
 		Run: ruleErrFlow,
 	})
 	register(&Rule{
-		ID: "TIMER-REARM", Props: []string{"C14"}, Floor: 4,
+		ID: "TIMER-REARM", Props: []string{"C14", "C16"}, Floor: 4,
 		Doc: "every retries method that can change the head of the time-ordered queue re-arms the wake-up timer (Pop always, Add/Clear when the item is at the head); resetTimer arms a timer whenever the queue is non-empty",
 		Run: ruleTimerRearm,
 	})
 	register(&Rule{
-		ID: "RETRY-BOOK", Props: []string{"C14", "C16"}, Floor: 8,
+		ID: "RETRY-BOOK", Props: []string{"C14", "C15", "C16"}, Default: []string{"C14", "C16"}, Floor: 8,
 		Doc: "retries.Add refreshes the item (object, revisions, delete flag, error, retry time, attempt count) on every failure and re-positions it in both heaps; Clear forgets the item entirely (backoff starts over); LowWatermark reports 0 only when no failed item remains; the backoff is capped; progress is published from the revisions incremental.run actually processed",
 		Run: ruleRetryBook,
 	})
@@ -248,7 +248,7 @@ func ruleErrFlow(c *Ctx, r *Reporter) {
 				okClear = false
 			}
 		}
-		r.check(okClear, name+"|a changed object's retry state is cleared before processing", c.posStr(body.Pos()), "retries.Clear(obj) dominates the processing of the change", "a new version of an object is processed without clearing its pending retry: the stale retry later re-applies the old version / the backoff continues from the old failures")
+		r.checkP([]string{"C14", "C15", "C16"}, okClear, name+"|a changed object's retry state is cleared before processing", c.posStr(body.Pos()), "retries.Clear(obj) dominates the processing of the change", "a new version of an object is processed without clearing its pending retry: the stale retry later re-applies the old version / the backoff continues from the old failures")
 		// every way out of the body passes processing, except the status filter
 		isProc := map[ssa.Instruction]bool{}
 		for _, p := range procs {
@@ -381,7 +381,12 @@ func ruleRetryBook(c *Ctx, r *Reporter) {
 		}
 	}
 	for _, f := range []string{"object", "rev", "origRev", "delete", "lastError", "retryAt", "numRetries"} {
-		r.check(fields[f] && !cond[f], "reconciler.(retries).Add|refreshes item."+f, c.posStr(add.Pos()), "item."+f+" is updated on every Add", "item."+f+" is not refreshed on every failure (only when the item is created, or never): a later retry runs with stale data - e.g. a stale revision makes every status commit fail and the object is abandoned")
+		props := []string{"C14", "C16"}
+		if f == "object" || f == "rev" || f == "origRev" || f == "delete" {
+			// the retried operation and its status write-back must refer to one version
+			props = append(props, "C15")
+		}
+		r.checkP(props, fields[f] && !cond[f], "reconciler.(retries).Add|refreshes item."+f, c.posStr(add.Pos()), "item."+f+" is updated on every Add", "item."+f+" is not refreshed on every failure (only when the item is created, or never): a later retry runs with stale data - e.g. a stale revision makes every status commit fail and the object is abandoned")
 	}
 	// both heaps maintained on both edges
 	for _, q := range []string{"queue", "revQueue"} {
